@@ -151,7 +151,9 @@ def run_dmrg(spec):
         if spec['E_shift'] is not None:
             classes.append('E_shift')
         # --- excited state: a second run orthogonal to the state just found (documented `orthogonal_to`)
-        if spec.get('excited') and m >= 3 and not truncating and spec['diag'] != 'ED_all' and not last_sweep_mixed and EH - Eref <= 1e-6 * max(1., nH):
+        # (psi, converged or not, is a valid normalized state of the sector: the lowest state orthogonal to it has an energy in
+        # [lambda_0, lambda_1] by interlacing, and >= lambda_1 if psi is the ground state)
+        if spec.get('excited') and m >= 3 and not truncating and spec['diag'] != 'ED_all' and not last_sweep_mixed:
             psi2 = None
             for k2 in range(40):  # a random start state in the same charge sector
                 vec2, q2 = M.random_state(sites, spec['seed'] + 7919 * k2, cplx=False)
@@ -161,7 +163,7 @@ def run_dmrg(spec):
             if psi2 is not None:
                 # (the energies of the states to be orthogonal to have to be below zero, documented: shift H if necessary is the
                 # user's job; we only use cases where the found energy is negative)
-                if E < -1e-6:
+                if True:
                     opts2 = dict(opts)
                     opts2['max_sweeps'] = 30
                     ortho = psi
@@ -196,7 +198,7 @@ def run_dmrg(spec):
                         require(ov <= 1e-3, 'excited-not-orthogonal', '|<psi0|psi1>| = %r (E1 = %r)' % (ov, E2), **tags0)
                         if eng2.mixer is None:
                             require(abs(E2 - EH2) <= 1e-7 * max(1., nH), 'excited-energy-mismatch', 'E_run = %r, <psi1|H|psi1> = %r' % (E2, EH2), **tags0)
-                        lam2 = lam[1] if m > 1 else lam[0]
+                        lam2 = lam[1] if EH - Eref <= 1e-9 * max(1., nH) else lam[0]
                         require(EH2 >= min(lam2, 0.) - 1e-5 * max(1., nH), 'excited-below-second-level', '<psi1|H|psi1> = %r < lambda_2(sector) = %r' % (EH2, lam2), **tags0)
                         classes.append('excited')
                     else:
